@@ -202,11 +202,12 @@ def describe(x):
 
 
 def same(a, b):
-    """equality that tells 1 from 1.0 and True from 1, treats nan == nan, and -0.0 != 0.0 is ignored"""
+    """equality that tells 1 from 1.0, True from 1 and -0.0 from 0.0, and treats nan == nan"""
     if type(a) is not type(b):
         return False
     if isinstance(a, float):
-        return a == b or (a != a and b != b)
+        import math
+        return (a == b and math.copysign(1.0, a) == math.copysign(1.0, b)) or (a != a and b != b)
     if isinstance(a, list):
         return len(a) == len(b) and all(same(x, y) for x, y in zip(a, b))
     if isinstance(a, dict):
@@ -418,7 +419,24 @@ thorough = args.tier == "thorough"
 scale = 1.0 if args.pkg == "dev" else 0.5
 t0 = time.time()
 
+# ==-equal Python scalars with different JSON spellings: a wrapper that keeps anything between calls keyed on == / hash
+# (memoised encoders, interned texts) confuses them
+COLLIDING = [True, 1, 1.0, False, 0, 0.0, -0.0, "1", "", None, 2, 2.0, "true", 1e0, -1, -1.0]
+SCALAR_RULES = [{"var": ""}, {"===": [{"var": ""}, True]}, {"===": [{"var": ""}, 1]}, {"cat": [{"var": ""}]}, {"!!": [{"var": ""}]}, {"+": [{"var": ""}, 0]}]
+
+
+def check_scalar_history(stats, calls):
+    """a sequence of calls in one interpreter: each must equal what the library gives for its own texts"""
+    for rule, data, ser_name, as_rule in calls:
+        if as_rule:
+            label, _ = check_apply(stats, data, None, "omitted", ser_name, "omitted")   # the scalar itself is the rule
+        else:
+            label, _ = check_apply(stats, rule, data, "positional", ser_name, "omitted")
+    return "scalar history of %d calls" % len(calls), len(calls) >= 2
+
+
 BODIES = {
+    "py_scalar_history": lambda stats, c: check_scalar_history(stats, c),
     "py_apply": lambda stats, c: check_apply(stats, c[0], c[1], c[2], c[3], c[4]),
     "py_apply_serialized": lambda stats, c: check_apply_serialized(stats, c[0], c[1], c[2], c[3]),
     "py_total": lambda stats, c: check_total(stats, c[0], c[1], c[2]),
@@ -476,6 +494,12 @@ if args.prop == "C19":
         st.tuples(text_values, text_values, st.sampled_from(["omitted", "positional", "keyword"]), st.sampled_from(sorted(DESERIALIZERS))),
         lambda stats, c: check_apply_serialized(stats, c[0], c[1], c[2], c[3]),
         n,
+    )
+    run_sub(
+        "py_scalar_history",
+        st.lists(st.tuples(st.sampled_from(SCALAR_RULES), st.sampled_from(COLLIDING), st.sampled_from(["omitted", "omitted", "json.dumps"]), st.booleans()), min_size=2, max_size=8),
+        lambda stats, c: check_scalar_history(stats, c),
+        max(200, n // 4),
     )
 elif args.prop == "C01":
     n = int((20000 if thorough else 800) * scale)
